@@ -81,7 +81,8 @@ func runC05(p *engine.Prog, r *engine.Report) {
 				oe := ownBase(fi, lk)
 				se := fi.ElemPath(fi.FieldPath(st, del, c.fScraping), c.fScraping.Type(), kt, lk)
 				j2a := engine.And(engine.EqAtom(fi.FieldPath(se, lk, c.fState), `"in_transfer"`), engine.EqAtom(fi.FieldPath(oe, lk, c.fState), `""`))
-				if ok, _ := fi.Implies(del.Block(), j2a); !ok {
+				for _, site := range c.decisionSites(del) {
+				if ok, _ := site.implies(fi, j2a); !ok {
 					continue
 				}
 				nH++
@@ -90,12 +91,13 @@ func runC05(p *engine.Prog, r *engine.Report) {
 				oth := engine.Sym(fi.FieldPath(oe, lk, c.fTimes))
 				needOwn := engine.Not(engine.LtAtom(own, engine.Int(N)))
 				needOth := engine.Not(engine.LtAtom(oth, engine.Int(N)))
-				okOwn, have := fi.Implies(del.Block(), needOwn)
-				okOth, have2 := fi.Implies(del.Block(), needOth)
+				okOwn, have := site.implies(fi, needOwn)
+				okOth, have2 := site.implies(fi, needOth)
 				r.Check(okOwn, "R5.2-handover-guard", ck+": source count", "removal of the in-transfer copy at "+c.at(del),
 					fmt.Sprintf("source's own ScrapeTimes ≥ %d (%s)", N, src), "path condition: "+strings.Join(have, " ∧ "))
 				r.Check(okOth, "R5.2-handover-guard", ck+": destination count", "removal of the in-transfer copy at "+c.at(del),
 					fmt.Sprintf("destination's ScrapeTimes ≥ %d (%s)", N, src), "path condition: "+strings.Join(have2, " ∧ "))
+				}
 			}
 		}
 	}
